@@ -10,6 +10,7 @@ import (
 
 	"github.com/btcsuite/btcd/btcec/v2"
 	"github.com/btcsuite/btcd/btcec/v2/ecdsa"
+	"github.com/btcsuite/btcd/btcec/v2/schnorr"
 	"github.com/btcsuite/btcd/btcec/v2/schnorr/musig2"
 	"github.com/btcsuite/btcd/chainhash/v2"
 	"verifharness/core"
@@ -115,6 +116,8 @@ func execExtra(op string, a []string) string {
 		}
 		return fmt.Sprintf("ok %x %x %s %s", agg.FinalKey.SerializeCompressed(), agg.PreTweakedKey.SerializeCompressed(),
 			scalarHex(gacc), scalarHex(tacc))
+	case op == "optreuse" && len(a) == 5:
+		return optReuse(a[0] == "1", parseTweakOpt(a[1]), a[2], msg32(unhex(a[3])), a[4])
 	case op == "conc" && len(a) == 1:
 		return execConc(a[0])
 	}
@@ -446,6 +449,31 @@ func genExtra(g *core.Gen) {
 		}
 		g.Case("keyaggx:"+class, true, fmt.Sprintf("C11 keyaggx %s %s %s %x %d %s", b01(srt), strings.Join(ks, ","), randTweaks(r, 2), kh, idx, ord))
 	}
+	// every functional option value made once and reused (same / other key sets, sequential and concurrent)
+	for i := 0; i < g.N(30, 400); i++ {
+		var sets []string
+		nsig := r.Intn(3) + 1
+		ds := signerSet(r, nsig)
+		var ss []string
+		for _, d := range ds {
+			ss = append(ss, fmt.Sprintf("%x:%x", b32(d), r.Bytes(32)))
+		}
+		for k := 0; k < 3; k++ {
+			var ks []string
+			for _, d := range signerSet(r, r.Intn(4)+1) {
+				ks = append(ks, hx(pubOf(d).SerializeCompressed()))
+			}
+			sets = append(sets, strings.Join(ks, ","))
+		}
+		tws := randTweaks(r, 3)
+		if i%2 == 0 {
+			tws = "t:" + hx(r.Bytes(32))
+		}
+		if strings.Contains(tws, hx(b32(curveN))) {
+			tws = "b"
+		}
+		g.Case("optreuse:"+tws[:1], true, fmt.Sprintf("C11 optreuse %d %s %s %x %s", r.Intn(2), tws, strings.Join(sets, "|"), randMsg(r), strings.Join(ss, ",")))
+	}
 	// concurrency: >= 8 independent deterministic computations at once, three rounds each
 	for i := 0; i < g.N(12, 80); i++ {
 		var subs []string
@@ -503,4 +531,199 @@ func genExtra(g *core.Gen) {
 		}
 		g.Case("conc:same-path", true, "C11 conc "+strings.Join(subs, ";"))
 	}
+}
+
+// ---------------------------------------------------------------- option VALUES are reused (seed C11-d)
+
+func keysHex(ks []*btcec.PublicKey) []string {
+	out := make([]string, len(ks))
+	for i, k := range ks {
+		out[i] = hx(k.SerializeCompressed())
+	}
+	return out
+}
+
+// optReuse creates every functional option value ONCE and applies it to several calls, sequentially and from
+// concurrent goroutines; every call must give the answer of a call made with a fresh option, and the caller's
+// inputs (script root, tweak descriptors, key lists) must read the same afterwards.
+func optReuse(srt bool, tw tweakOpt, keysetsS string, msg [32]byte, signersS string) string {
+	var keysets [][]*btcec.PublicKey
+	for _, ks := range strings.Split(keysetsS, "|") {
+		keysets = append(keysets, parseKeys(ks))
+	}
+	rootBefore := append([]byte{}, tw.root...)
+	tweaksBefore := append([]musig2.KeyTweakDesc{}, tw.tweaks...)
+	var before [][]string
+	for _, ks := range keysets {
+		before = append(before, keysHex(ks))
+	}
+	// the option values, made once (WithKeyTweaks gets the caller's slice itself)
+	var ka []musig2.KeyAggOption
+	switch tw.kind {
+	case "b":
+		ka = []musig2.KeyAggOption{musig2.WithBIP86KeyTweak()}
+	case "t":
+		ka = []musig2.KeyAggOption{musig2.WithTaprootKeyTweak(tw.root)}
+	case "p":
+		ka = []musig2.KeyAggOption{musig2.WithKeyTweaks(tw.tweaks...)}
+	}
+	agg1 := func(ks []*btcec.PublicKey) string {
+		agg, _, _, err := musig2.AggregateKeys(ks, srt, ka...)
+		if err != nil {
+			return "err"
+		}
+		return hx(agg.FinalKey.SerializeCompressed())
+	}
+	var seq []string
+	for _, idx := range []int{0, 0, 1 % len(keysets), 2 % len(keysets), 0} {
+		seq = append(seq, agg1(keysets[idx])) // the caller's own slices on purpose
+	}
+	cc := make([]string, 6)
+	done := make(chan struct{}, len(cc))
+	start := make(chan struct{})
+	for j := range cc {
+		go func(j int) {
+			defer func() {
+				if r := recover(); r != nil {
+					cc[j] = "panic"
+				}
+				done <- struct{}{}
+			}()
+			<-start
+			for k := 0; k < 3; k++ {
+				out := agg1(copyKeys(keysets[j%len(keysets)]))
+				if k > 0 && out != cc[j] {
+					out = "UNSTABLE"
+				}
+				cc[j] = out
+			}
+		}(j)
+	}
+	close(start)
+	for range cc {
+		<-done
+	}
+	// sign / verify / combine / context option values, made once
+	var privs []*btcec.PrivateKey
+	var pubs []*btcec.PublicKey
+	var rands [][]byte
+	for _, sg := range strings.Split(signersS, ",") {
+		kv := strings.Split(sg, ":")
+		priv := privFrom(kv[0])
+		privs, pubs, rands = append(privs, priv), append(pubs, priv.PubKey()), append(rands, unhex(kv[1]))
+	}
+	so := tw.sign1(srt)
+	msg2 := msg
+	msg2[0] ^= 1
+	session1 := func(m [32]byte, co []musig2.CombineOption) (string, string) {
+		var ns []*musig2.Nonces
+		var pn [][musig2.PubNonceSize]byte
+		for i, priv := range privs {
+			n, err := musig2.GenNonces(musig2.WithCustomRand(bytes.NewReader(rands[i])), musig2.WithPublicKey(priv.PubKey()))
+			if err != nil {
+				return "err", "err"
+			}
+			ns, pn = append(ns, n), append(pn, n.PubNonce)
+		}
+		an, err := musig2.AggregateNonces(pn)
+		if err != nil {
+			return "err", "err"
+		}
+		var ps []*musig2.PartialSignature
+		for i, priv := range privs {
+			p, err := musig2.Sign(ns[i].SecNonce, priv, an, copyKeys(pubs), m, so...)
+			if err != nil {
+				return "err", "err"
+			}
+			if !p.Verify(pn[i], an, copyKeys(pubs), priv.PubKey(), m, so...) {
+				return "err:pverify", "err:pverify"
+			}
+			ps = append(ps, p)
+		}
+		f1 := musig2.CombineSigs(ps[0].R, ps, co...)
+		f2 := musig2.CombineSigs(ps[0].R, ps, co...) // the same CombineOption values again
+		return hx(f1.Serialize()), hx(f2.Serialize())
+	}
+	sa, sa2 := session1(msg, tw.combine(msg, copyKeys(pubs), srt))
+	sb, _ := session1(msg2, tw.combine(msg2, copyKeys(pubs), srt))
+	// Context options made once, used for every signer's Context and for two successive signing rounds
+	shared := copyKeys(pubs)
+	co := append([]musig2.ContextOption{musig2.WithKnownSigners(shared)}, tw.ctx()...)
+	ctxRound := func(m [32]byte) string {
+		if len(privs) == 1 {
+			return "single"
+		}
+		var ss []*musig2.Session
+		for i, priv := range privs {
+			c, err := musig2.NewContext(priv, srt, co...)
+			if err != nil {
+				return "err"
+			}
+			n, err := musig2.GenNonces(musig2.WithCustomRand(bytes.NewReader(rands[i])), musig2.WithPublicKey(priv.PubKey()))
+			if err != nil {
+				return "err"
+			}
+			s, err := c.NewSession(musig2.WithPreGeneratedNonce(n))
+			if err != nil {
+				return "err"
+			}
+			ss = append(ss, s)
+		}
+		for i, s := range ss {
+			for j, o := range ss {
+				if i != j {
+					if _, err := s.RegisterPubNonce(o.PublicNonce()); err != nil {
+						return "err"
+					}
+				}
+			}
+		}
+		var ps []*musig2.PartialSignature
+		for _, s := range ss {
+			p, err := s.Sign(m)
+			if err != nil {
+				return "err"
+			}
+			ps = append(ps, p)
+		}
+		for j := 1; j < len(ps); j++ {
+			if _, err := ss[0].CombineSig(ps[j]); err != nil {
+				return "err"
+			}
+		}
+		if f := ss[0].FinalSig(); f != nil {
+			return hx(f.Serialize())
+		}
+		return "err"
+	}
+	ca, cb := ctxRound(msg), ctxRound(msg2)
+	// schnorr sign options made once: CustomNonce(aux) and FastSign, used for three signatures
+	var aux [32]byte
+	copy(aux[:], rands[0])
+	sopts := []schnorr.SignOption{schnorr.CustomNonce(aux), schnorr.FastSign()}
+	var bs []string
+	for _, m := range [][32]byte{msg, msg2, msg} {
+		sg, err := schnorr.Sign(privs[0], m[:], sopts...)
+		if err != nil {
+			bs = append(bs, "err")
+		} else {
+			bs = append(bs, hx(sg.Serialize()))
+		}
+	}
+	// inputs unchanged (key lists: AggregateKeys with sort=true sorts the caller's slice in place - documented
+	// btcd behaviour, so only the multiset is required to survive in that case)
+	in := bytes.Equal(rootBefore, tw.root) && len(tweaksBefore) == len(tw.tweaks)
+	for i := range tweaksBefore {
+		in = in && tweaksBefore[i] == tw.tweaks[i]
+	}
+	for i, ks := range keysets {
+		after := keysHex(ks)
+		if srt {
+			sort.Strings(after)
+			sort.Strings(before[i])
+		}
+		in = in && strings.Join(after, ",") == strings.Join(before[i], ",")
+	}
+	return fmt.Sprintf("ka=%s cc=%s sa=%s sa2=%s sb=%s ca=%s cb=%s bs=%s in=%s", strings.Join(seq, ","), strings.Join(cc, ","),
+		sa, sa2, sb, ca, cb, strings.Join(bs, ","), b01(in))
 }
